@@ -13,8 +13,8 @@ Spec == Init /\ [][Next]_ci
 
 Fail(cond, pred, layer, lev) == IF cond THEN {} ELSE {[p |-> pred, layer |-> layer, l |-> lev]}
 
-LevelFails(C, l, lv) ==
-  LET T == EntTable(C, l, lv) IN
+LevelFails(C, l, lv, T0) ==
+  LET T == IF l = 0 /\ lv = C.K THEN T0 ELSE EntTable(C, l, lv) IN
   UNION {
     Fail(Cover(C, l, lv, T), "Cover", l, lv),
     Fail(PatchClosed(C, l, lv, T), "PatchClosed", l, lv),
@@ -23,25 +23,27 @@ LevelFails(C, l, lv) ==
     Fail(BndPartOK(C, l, lv, T), "BndPartOK", l, lv),
     Fail(RefinedWithin(C, l, lv, T), "RefinedWithin", l, lv) }
 
-Verdict(C) ==
+Verdict(C, T0) ==
   IF ~LayerShapeOK(C) THEN Fail(FALSE, "LayerShapeOK", -1, -1)
   ELSE IF ~LevelsOK(C) THEN Fail(FALSE, "LevelsOK", -1, -1)
   ELSE IF ~MeshesWellFormed(C) THEN Fail(FALSE, "MeshesWellFormed", -1, -1)
-  ELSE UNION {UNION {LevelFails(C, l, lv) : lv \in Levels(C, l)} : l \in 0..(NLayers(C) - 1)}
+  ELSE UNION {UNION {LevelFails(C, l, lv, T0) : lv \in Levels(C, l)} : l \in 0..(NLayers(C) - 1)}
        \cup UNION {Fail(ChildrenPartitionParent(C, l), "ChildrenPartitionParent", l, PartLevel(C, l)) : l \in 1..(NLayers(C) - 1)}
        \cup Fail(SiblingsOK(C), "SiblingsOK", -1, -1)
        \cup Fail(AncestryOK(C), "AncestryOK", -1, -1)
 
 \* coverage information: neighbour pairs of the finest layer, pairs touching in one vertex only, pairs of different parents
-Info(C) ==
+Info(C, T) ==
   IF ~(LayerShapeOK(C) /\ LevelsOK(C) /\ MeshesWellFormed(C)) THEN [pairs |-> 0, single |-> 0, cross |-> 0, layers |-> 0, levels |-> 0]
-  ELSE LET T == EntTable(C, 0, C.K)
-           X == {ab \in Members(C, 0) \X Members(C, 0) : ab[1] < ab[2] /\ Touch(T, ab[1], ab[2])}
+  ELSE LET X == {ab \in Members(C, 0) \X Members(C, 0) : ab[1] < ab[2] /\ Touch(T, ab[1], ab[2])}
        IN [pairs |-> Cardinality(X),
            single |-> Cardinality({ab \in X : Cardinality(T[ab[1]][1] \cap T[ab[2]][1]) = 1}),
            cross |-> IF NLayers(C) < 2 THEN 0 ELSE Cardinality({ab \in X : ab[1] \div Stride(C, 1) # ab[2] \div Stride(C, 1)}),
            layers |-> NLayers(C),
            levels |-> FoldSeq(LAMBDA l, acc : acc + Cardinality(Levels(C, l - 1)), 0, [l \in 1..NLayers(C) |-> l])]
 
-Emit == LET C == Cases[ci] IN PrintT(ToJson([id |-> C.id, fails |-> SetToSeq(Verdict(C)), info |-> Info(C)]))
+\* T0 = the entity table of the finest level of layer 0 (only evaluated - lazily - once the shape predicates hold)
+Emit == LET C == Cases[ci]
+            T0 == EntTable(C, 0, C.K)
+        IN PrintT(ToJson([id |-> C.id, fails |-> SetToSeq(Verdict(C, T0)), info |-> Info(C, T0)]))
 =============================================================================
